@@ -1098,6 +1098,7 @@ func main() {
 			r.sum.Samples = append(r.sum.Samples, c.source)
 		}
 	}
+	r.nonASCIIDuplicates()
 	for _, f := range r.fails {
 		r.sum.OracleFails = append(r.sum.OracleFails, f)
 	}
@@ -1107,6 +1108,100 @@ func main() {
 	r.sum.Write(filepath.Join(*out, "summary.json"))
 	fmt.Printf("c13: %d inputs, %d evaluations, %d coq cases, %d oracle failures, %d panics, %d unknown messages, skipped layout/shape/yaml %d/%d/%d\n",
 		len(inputs), r.sum.Evaluations, len(kept), len(r.fails), len(r.panics), len(um), r.skipLayout, r.skipShape, r.skipYAML)
+}
+
+// nonASCIIDuplicates: in the mappings whose keys are compared case-insensitively a key repeated
+// in another letter case is a duplicate also when the letters are outside ASCII (the key is
+// lower-cased as a whole).  One workflow per pair, a pair in every such mapping; the repetition
+// must be reported at its own key (the lines ending in `# dup`).
+func (r *runner) nonASCIIDuplicates() {
+	for _, pr := range [][2]string{{"über", "Über"}, {"Ñandú", "ñandú"}, {"école_x", "ÉCOLE_X"}} {
+		a, b := pr[0], pr[1]
+		src := strings.NewReplacer("@A@", a, "@B@", b).Replace(`on:
+  workflow_dispatch:
+    inputs:
+      @A@:
+        type: string
+      @B@: # dup
+        type: string
+  workflow_call:
+    inputs:
+      @A@:
+        type: string
+      @B@: # dup
+        type: string
+    secrets:
+      @A@:
+        required: false
+      @B@: # dup
+        required: false
+    outputs:
+      @A@:
+        value: x
+      @B@: # dup
+        value: y
+env:
+  @A@: 1
+  @B@: 2 # dup
+jobs:
+  @A@:
+    runs-on: ubuntu-latest
+    steps:
+      - run: echo
+  j:
+    runs-on: ubuntu-latest
+    env:
+      @A@: 1
+      @B@: 2 # dup
+    outputs:
+      @A@: x
+      @B@: y # dup
+    strategy:
+      matrix:
+        @A@: [1]
+        @B@: [2] # dup
+    services:
+      @A@:
+        image: x
+      @B@: # dup
+        image: y
+    steps:
+      - uses: actions/checkout@v4
+        with:
+          @A@: 1
+          @B@: 2 # dup
+        env:
+          @A@: 1
+          @B@: 2 # dup
+  @B@: # dup
+    runs-on: ubuntu-latest
+    steps:
+      - run: echo
+`)
+		res := runParse([]byte(src))
+		r.sum.Evaluations++
+		r.sum.Dist["non_ascii_duplicate_workflows"]++
+		var missing []int
+		for i, ln := range strings.Split(src, "\n") {
+			if !strings.HasSuffix(ln, "# dup") {
+				continue
+			}
+			col := len(ln) - len(strings.TrimLeft(ln, " ")) + 1
+			found := false
+			for _, d := range res.diags {
+				if d.Code == 2 && d.Line == i+1 && d.Col == col {
+					found = true
+				}
+			}
+			if !found {
+				missing = append(missing, i+1)
+			}
+		}
+		if len(missing) > 0 || res.panic != "" {
+			r.fails = append(r.fails, failure{What: "a key repeated in another letter case (letters outside ASCII) is not reported at the repetition", Key: "non-ascii-duplicate|" + a,
+				File: "generated", Original: src, Mutant: src, Detail: map[string]interface{}{"lines_without_duplicate_report": missing, "got": res.diags, "panic": res.panic}})
+		}
+	}
 }
 
 func doReplay(path string) int {
@@ -1127,6 +1222,16 @@ func doReplay(path string) int {
 			}
 		}
 		return 1
+	}
+	if strings.HasPrefix(f.Key, "non-ascii-duplicate|") {
+		r := &runner{sum: hx.NewSummary("C13"), unknownMsg: map[string]bool{}, nontrivial: map[string]bool{}, perSection: map[string]int{}}
+		r.nonASCIIDuplicates()
+		for _, g := range r.fails {
+			fmt.Printf("REPRODUCED: %s %v\n%s", g.What, g.Detail, g.Original)
+			return 1
+		}
+		fmt.Println("not reproduced on this tree")
+		return 0
 	}
 	fmt.Printf("property C13, %s\nfile %s, mutation %+v\n", f.What, f.File, f.Mutation)
 	o := runParse([]byte(f.Original))
